@@ -162,6 +162,7 @@ def generate(seed, tier):
     classes = list(spec.ALL_BUILTIN) + list(GA_FIELDS) + list(USER_FIELDS) * 2
     g = _Gen(r, classes=classes, max_depth=r.choice([1, 2, 3, 3, 4]), pool=[],
              idents=["x", "y", "z"], p_leaf=0.3,
+             leaf_classes=("Variable", "Variable", "SubVariable", "LegacyVar"),
              const_kinds=("i", "i", "f", "b", "npi", "npf", "c"), const_values=(0, 1, 2, -1, 3, 7))
     g.extra_fields = dict(GA_FIELDS)
     g.extra_fields.update(USER_FIELDS)
@@ -202,6 +203,13 @@ def generate(seed, tier):
         while not spec.is_expr_term(t):
             t = ga.term(0)
         cterms.append(t)
+    # expressions for a user subclass of CompiledExpression that supplies sin/cos itself
+    ctx_terms = []
+    for _ in range(r.randint(0, 1)):
+        inner = ga.term(1)
+        ctx_terms.append(["n", "Sum", [["t", [
+            ["n", "Call", [["n", "Variable", [["s", r.choice(["sin", "cos"])]]], ["t", [inner]]]],
+            ["n", "Variable", [["s", r.choice(["x", "y", "z"])]]]]]]])
     ops = []
     have = {n: [] for n in range(nn)}       # node -> handle names (generation-time guess)
     chave = {n: [] for n in range(nn)}
@@ -243,16 +251,28 @@ def generate(seed, tier):
             ops.append(["lookup", n, r.choice(have[n])])
         elif x < 0.84 and have[n]:
             ops.append(["digest", n, r.choice(have[n])])
-        elif x < 0.90 and cterms:
+            if r.random() < 0.6:
+                # the same expression digested by another node, whose history differs
+                t = r.choice(terms)
+                for n3 in r.sample(range(nn), 2):
+                    h = newh()
+                    ops.append(["build", n3, h, t])
+                    ops.append(["digest", n3, h])
+                    have[n3].append(h)
+        elif x < 0.90 and (cterms or ctx_terms):
             # compiled expression life cycle
             h = newh()
-            t = r.choice(cterms)
+            use_ctx = bool(ctx_terms) and (not cterms or r.random() < 0.4)
+            t = r.choice(ctx_terms if use_ctx else cterms)
             ops.append(["build", n, h, t])
             have[n].append(h)
             c = f"c{hc[0]}"
             listed = r.choice([["x", "y", "z"], ["z", "x", "y"], ["x", "y"], ["x"], []])
             how = r.choice([None, None, {"as_variables": True},
                             {"as_variables": True, "grow_list_after": True}])
+            if use_ctx:
+                listed = r.choice([["x", "y", "z"], ["z", "x", "y"]])
+                how = dict(how or {}, with_context=True)
             ops.append(["compile", n, h, listed, c] + ([how] if how else []))
             args = [r.choice([["i", 2], ["f", "1.5"], ["i", 3], ["f", "0.25"]]) for _ in range(3)]
             ops.append(["call", n, c, args])
@@ -453,9 +473,9 @@ def execute(scenario, open_sigs):
                         probe("loads_across_O_modes")
                     if n in restarted:
                         probe("loads_after_restart")
-                    if uses(s["term"], ["UTag", "UTag3", "UNamed", "UHashless"]):
+                    if uses(s["term"], ["UTag", "UTag3", "UNamed", "UHashless", "UDerived"]):
                         probe("user_class_messages")
-                    if uses(s["term"], ["LegacyVar", "LegacyVarX", "PureLegacy"]):
+                    if uses(s["term"], ["LegacyVar", "LegacyVarX", "PureLegacy", "SubVariable", "SubCall"]):
                         probe("legacy_class_messages")
                     det = {"op": opi, "consumer": n, "producer": s["producer"],
                            "consumer_hash_seed": node(n).hash_seed, "producer_hash_seed": s["seed"],
